@@ -511,7 +511,92 @@ def _run_derived(case):
     return OK(nt, cls)
 
 
+# ------------------------------------------------------------------------------------------------
+# re-entrant arrival: an element of the same key pushed into the source from the expiring group's on_completed
+
+
+def _run_reentrant(case):
+    """Source = a Subject driven by the timeline; every group is observed through do_action(on_completed=echo): the first
+    `echo` group completions push the group's key (identity key function) back into the source synchronously.  The
+    echoed element arrives after its group expired (its subscriber is being told so), hence it must open a new group."""
+    from vlib.values import Tagged
+
+    f = "group_by_until"
+    lab = Lab()
+    S = Subject()
+    keyfn = _keyfn(case["key"])
+    elemfn = _elemfn(case.get("elem"))
+    keyf = lab.fn("key", keyfn)
+    elemf = lab.fn("elem", elemfn) if case.get("elem") else None
+    durs = case["durations"]
+    durm = lab.fn("dur", lambda g: _dur_obs(lab, durs[(lab.cb_count["dur"] - 1) % len(durs)]))
+    budget = [case["echo"]]
+    state = {"done": False, "echoed": 0}
+
+    def wrap(g):
+        def echo():
+            if budget[0] > 0 and not state["done"]:
+                budget[0] -= 1
+                state["echoed"] += 1
+                S.on_next(g.key)
+
+        w = g.pipe(ops.do_action(on_completed=echo))
+        w.key = g.key
+        return w
+
+    obs = S.pipe(ops.group_by_until(keyf, elemf, durm), ops.map(wrap))
+    p = lab.probe("p", inner=INNER)
+    p.subscribe(obs)
+
+    def emit(kind, pl):
+        if kind == "N":
+            S.on_next(val(pl))
+        else:
+            state["done"] = True
+            S.on_error(Tagged(pl)) if kind == "E" else S.on_completed()
+
+    for t, kind, pl in case["src"]["tl"]:
+        lab.at(t, lambda kind=kind, pl=pl: emit(kind, pl))
+    lab.run(until=_horizon(case) + 2)
+    cls = ["form:reentrant", "key:" + case["key"]["mode"]]
+    if lab.inconclusive:
+        return SKIP(lab.inconclusive)
+    if lab.escaped is not None:
+        raise lab.escaped
+    for q in lab.probes:
+        ok, msg = q.grammar_ok()
+        if not ok:
+            return FAIL(f"{f}:reentrant:grammar", f"{msg} case={case}", classes=cls)
+    got = _observe(p, lab)
+    eff = [[t, k, val(pl) if k == "N" else pl] for t, k, pl in case["src"]["tl"]]
+    sim = refwin.sim_group_by_until(eff, 0, keyfn, elemfn, durs, _horizon(case) + 2, echo=case["echo"])
+    first, matched = None, None
+    try:
+        for choice, out in refwin.outcomes(sim, 512):
+            if choice is None:
+                return SKIP("too-many-ties")
+            if first is None:
+                first = out
+            if _same(out, got):
+                matched = (choice, out)
+                break
+    except refwin.SimSpin:
+        return SKIP("sim-spin")
+    ref = matched[1] if matched else first
+    if ref["echoed"]:
+        cls.append("element-pushed-from-group-completion")
+    if ref["echoed"] >= 2:
+        cls.append(">=2-echoes")
+    if case.get("elem"):
+        cls.append("element-mapper")
+    if matched is None:
+        return FAIL(f"{f}:reentrant:{_clause(first, got)}|{f}", f"case={case} observed={got} expected(one of, first shown)={ {k: first[k] for k in ('groups', 'outer_end')} }", classes=cls)
+    return OK(ref["echoed"] >= 1, cls)
+
+
 def _run(case):
+    if case["form"] == "reentrant":
+        return _run_reentrant(case)
     if case["form"] == "derived":
         return _run_derived(case)
     if case["form"] in ("group_by", "group_by_until"):
@@ -590,6 +675,22 @@ def _subject_cases(draw, tier):
     return case
 
 
+@st.composite
+def _reentrant_cases(draw, tier):
+    names = draw(st.sampled_from([["i0", "false", "none", "s", "t", "i1"], ["i1", "i2", "sa"], HASHABLE_NAMES]))
+    tl = draw(timelines(max_len=7 if tier == "quick" else 10, max_dt=2, values=names, terminal=("C", "E", None)))
+    durs = draw(st.lists(st.fixed_dictionaries({"dt": st.sampled_from([0, 1, 1, 2, 3, None]), "kind": st.sampled_from(["N", "C"]), "via": st.sampled_from(["timeline", "timeline", "timer"])}), min_size=1, max_size=3))
+    return {
+        "form": "reentrant",
+        "src": {"kind": "subject", "tl": tl},
+        "sub": 0,
+        "key": {"mode": "ident"},
+        "elem": draw(st.sampled_from([None, None, "tag"])),
+        "durations": durs,
+        "echo": draw(st.sampled_from([1, 1, 2, 3])),
+    }
+
+
 _rule = st.one_of(
     st.fixed_dictionaries({"mode": st.just("count"), "n": st.sampled_from([1, 2, 2, 3, 4])}),
     st.fixed_dictionaries({"mode": st.just("sentinel"), "m": st.sampled_from([2, 3, 4]), "res": st.lists(st.integers(0, 3), min_size=1, max_size=2, unique=True)}),
@@ -616,6 +717,7 @@ def checks(tier):
         Check("partition", _run, strategy=_partition_cases("partition"), examples={"quick": 400, "thorough": 16 * 2500}, shards={"quick": 4, "thorough": 16}),
         Check("partition_indexed", _run, strategy=_partition_cases("partition_indexed"), examples={"quick": 400, "thorough": 16 * 2500}, shards={"quick": 4, "thorough": 16}),
         Check("subject_mapper", _run, strategy=_subject_cases(tier), examples={"quick": 500, "thorough": 16 * 4000}, shards={"quick": 4, "thorough": 16}),
+        Check("reentrant", _run, strategy=_reentrant_cases(tier), examples={"quick": 500, "thorough": 16 * 3000}, shards={"quick": 4, "thorough": 16}),
         Check("derived_early_exit", _run, strategy=_derived_cases(True, tier), examples={"quick": 500, "thorough": 16 * 3000}, shards={"quick": 4, "thorough": 16}),
         Check("derived_duration", _run, strategy=_derived_cases(False, tier), examples={"quick": 1200, "thorough": 16 * 8000}, shards={"quick": 4, "thorough": 16}),
     ]
